@@ -126,6 +126,37 @@ def sweep(ctx, n_hist, n_ops):
                 hist.append(("reset",))
                 obj.reset_path()
                 P, Q = np.zeros((1, 3)), np.array([[0.0, 0, 0, 1]])
+            if rng.random() < 0.12:
+                # a call that cannot be carried out (rotation that is not a number: NaN angle, rotation axis whose length
+                # underflows to zero, Rotation object holding NaN) must be refused with the library's input error and must
+                # leave the path as it is — with an anchor the position path used to be overwritten with NaN before scipy raised
+                from magpylib._src.exceptions import MagpylibBadUserInput
+                badk = rng.choice(["nan-angle", "tiny-axis", "nan-axis", "nan-rotation"])
+                anchor_b = rng.choice([0, None, (1.0, -2.0, 0.5)])
+                try:
+                    with np.errstate(all="ignore"):
+                        import warnings
+                        with warnings.catch_warnings():
+                            warnings.simplefilter("ignore")
+                            if badk == "nan-angle":
+                                obj.rotate_from_angax(float("nan"), "z", anchor=anchor_b)
+                            elif badk == "tiny-axis":
+                                obj.rotate_from_angax(90, (1e-170, 0, 0), anchor=anchor_b)
+                            elif badk == "nan-axis":
+                                obj.rotate_from_angax(90, (float("nan"), 0, 1), anchor=anchor_b)
+                            else:
+                                obj.rotate(R.from_rotvec([float("nan"), 0, 0]), anchor=anchor_b)
+                    outcome = "accepted"
+                except MagpylibBadUserInput:
+                    outcome = "refused"
+                except Exception as e:  # noqa: BLE001
+                    outcome = f"foreign {type(e).__name__}"
+                branch["refused-rotation"] = branch.get("refused-rotation", 0) + 1
+                hist.append(("bad-rotation", badk, anchor_b if anchor_b is None or isinstance(anchor_b, int) else list(anchor_b)))
+                if outcome != "refused":
+                    fails.append({"key": f"path-semantics:bad-rotation:{badk}", "desc": f"rotate with a {badk} was {outcome} instead of refused with the library's input error",
+                                  "replay": {"initial_position": p0.tolist(), "history": hist, "got_position": np.asarray(obj._position).tolist()}})
+                    break
             ops_done += 1
             rp, rq = np.asarray(obj._position), obj._orientation.as_quat().reshape(-1, 4)
             ok = rp.shape == P.shape and len(rq) == len(rp) and len(rp) >= 1 and np.allclose(rp, P, atol=1e-9, rtol=1e-9) and same_rot(rq, Q, 1e-9)
